@@ -7,8 +7,11 @@ BINOPS = {"Add", "Minus", "Mul", "Div", "Mod", "Lt", "Le", "Gt", "Ge", "Eq", "Ne
 
 
 class Renderer:
-    def __init__(self, prog, mod_a, mod_b, leading_blank=0, marker_base=100000):
+    def __init__(self, prog, mod_a, mod_b, leading_blank=0, marker_base=100000, line_comment=None):
         self.prog = prog
+        # text put behind every marker constant as a Python comment (source lines that LOOK like imports,
+        # compiler internals, ... must not confuse the frame selection)
+        self.line_comment = ("  # " + line_comment) if line_comment else ""
         self.mod_a, self.mod_b = mod_a, mod_b
         self.leading_blank = leading_blank
         self.next_marker = marker_base
@@ -35,7 +38,7 @@ class Renderer:
         if k == "Int":
             m = self.mark()
             self.markers[m] = (self.cur_file, self.lineno())
-            self.emit("pt.Int(%d)%s" % (m, tail), ind)
+            self.emit("pt.Int(%d)%s%s" % (m, tail, self.line_comment), ind)
         elif k == "Bytes":
             v = t[1]
             self.emit("pt.Bytes(bytes.fromhex(%r))%s" % (v if isinstance(v, str) else bytes(v).hex(), tail), ind)
